@@ -637,7 +637,8 @@ def pinned_ok():
 
 def source_problems():
     from .. import translate_header as T
-    return T.read_header_module()["source_problems"]
+    d = T.read_header_module()
+    return d["source_problems"] + d["source_changes"]
 
 
 MUT_CHARS = [":", " ", "\n", "\r", "\t", "-", "_", "0", "9", "A", "z", "X", "\"", "'", "=", "?", "<", ">", ".", "&", "\x0b", "\x1c", "\x85", "\xa0", "é", "٣", "²", "Ⅷ", " ", "�", "漢"]
